@@ -740,7 +740,7 @@ def run_switch_lines(lines, tag="S", workers=8, vty="any"):
 
 INTS = [-3, -1, 0, 1, 2, 3, 4, 5, 6, 7, 9, 12, 100, 2 ** 63, 2 ** 64 + 1, -2 ** 70]
 HALVES = [-3, -1, 0, 1, 2, 5, 6, 10, 15, 201]
-STRS = ["", "a", "b", "ab", "abc", "b", "m", "x", "zz", "abx"]
+STRS = ["", "a", "b", "ab", "abc", "aab", "m", "x", "zz", "abx", "xab"]
 SYMS = ["a", "b", "foo", "bar"]
 KEYS = [('y', "a"), ('y', "b"), ('y', "foo"), ('s', "k"), ('s', "a"), ('i', 1), ('i', 2)]
 CLASSES = ["Int", "Float", "String", "Symbol", "Bool", "Nil", "ArrayList", "ArrayTuple", "HashMap", "HashRecord",
@@ -792,7 +792,7 @@ class Gen:
         r = self.rng
         if is_scalar(v):
             if v not in ('T', 'F', 'N') and v[0] == 'i' and r.random() < 0.6:
-                return ('i', v[1] + r.choice([-1, 1, 2])) if r.random() < 0.7 else ('f', 2 * v[1])
+                return ('i', v[1] + r.choice([-1, 1, 2])) if (r.random() < 0.7 or abs(v[1]) > 2 ** 20) else ('f', 2 * v[1])
             if v not in ('T', 'F', 'N') and v[0] == 'f' and r.random() < 0.6:
                 return ('f', v[1] + r.choice([-1, 1])) if r.random() < 0.6 else ('i', v[1] // 2)
             return self.scalar()
@@ -883,9 +883,9 @@ class Gen:
         if is_scalar(v):
             k = ordered_kind(v)
             c = r.random()
+            if k == 's' and v[1].endswith(ENV["s0"][1]) and c < 0.5:
+                return self.wrap(('interp', v[1][:-len(ENV["s0"][1])], "s0"), v, depth, kind)
             if c < 0.4 or k is None:
-                if v == ENV["s0"] and False:
-                    pass
                 return self.wrap(('lit', v), v, depth, kind)
             if c < 0.7:
                 d = (lambda x, n: (x[0], x[1] + n)) if k in 'if' else (lambda x, n: x)
@@ -1193,7 +1193,10 @@ def run(ctx):
     ctx.rule = ("(switch, value) pairs: 1-5 cases of pattern depth <= 3 built around seed values (literal, range, list/tuple "
                 "with rest, map/record, C()/C(length:), binder, as, ||, &&, ?, must, relational), 8 values per switch "
                 "(seeds, mutations, random); distinct = distinct line; non-trivial = some value selects a case")
+    import time
+    t0 = time.time()
     ctx.prove("ElkVerif.Props.C30")
+    ctx.extra["prove_s"] = round(time.time() - t0, 1)
     if ctx.replay:
         rp = json.load(open(ctx.replay))
         line = rp["input"]["line"]
@@ -1205,9 +1208,9 @@ def run(ctx):
         return
     corpus = vlib.corpus_lines("C30")
     sel = [l for l in corpus if l.split("\t")[1] == "sel"]
-    n = ctx.n(220, 6000)
+    n = ctx.n(160, 6000)
     lines = sel + [gen_line(ctx.rng) for _ in range(n)]
     check_select(ctx, lines, "switch", "S")
     from checks import c30_cov
     c30_cov.check_cov(ctx, [l for l in corpus if l.split("\t")[1] == "cov"] +
-                      [c30_cov.gen_cov(ctx.rng) for _ in range(ctx.n(120, 3000))])
+                      [c30_cov.gen_cov(ctx.rng) for _ in range(ctx.n(60, 2500))])
